@@ -107,6 +107,7 @@ func c08Run(c c08Case) (string, error) {
 	for _, s := range syms {
 		if ds, ok := s.(protocol.DocumentSymbol); ok {
 			add(4, -1, -1, ds.Range, nil, 0)
+			add(13, -1, -1, ds.SelectionRange, nil, 0) // the symbol's selection range (tie: equals its range; oracle: well-formed)
 		}
 	}
 	links, _ := srv.DocumentLink(ctx, &protocol.DocumentLinkParams{TextDocument: td})
